@@ -161,7 +161,10 @@ class Gen:
             kinds.append('remove')
         if f and r.random() < 0.12:
             # hostile: the option file ends up declaring nothing at all
-            names = [n for n in f if n not in ('y', 'yc')]
+            # in the subproject really everything goes (zero declarations left); at top level the parents of the
+            # yielding options go too in one case out of three (known finding: children keep a stale parent)
+            keep = () if (sub == 'sub' or r.random() < 0.33) else ('y', 'yc')
+            names = [n for n in f if n not in keep]
             for n in names:
                 del f[n]
             return {'edit': 'remove-all', 'sub': sub, 'name': ','.join(names) or '-'}
